@@ -10,6 +10,9 @@ ENGINES["hist"] = {"path": "harness/src/hist.rs",
 ENGINES["thr"] = {"path": "harness/src/thr.rs",
     "kind": "16 threads creating/modifying unwinders concurrently; generations read through the hook must be pairwise distinct and form the contiguous run the model predicts; syntactic shape check of the fetch_add"}
 
+ENGINES["row"] = {"path": "harness/src/row.rs",
+    "kind": "one DWARF row at a time through real CFI bytes (all three presentations): systematic product of CFA register x offset grid x return-address rule x frame-pointer rule, then random fill, each with 6 register/stack states as first and caller frame; impl vs Lean model vs the DWARF specification of the row where the C05 theorems apply"}
+
 NOT_APPLICABLE = {}
 
 _NOTE = ("Trusted: Lean kernel; axioms propext/Classical.choice/Quot.sound only (audited per theorem on every run); "
@@ -88,5 +91,12 @@ PROPS = {
         "level_text": "Theorems: every lookup increments exactly one counter, chosen by the slot content exactly as documented; one call = one lookup; a cacheable call leaves its rule in its slot; calls that map to other slots never disturb it; a call that finds its entry is a hit, returns the cached rule's execution and consults no section data. Tie: histories with exact repeats and colliding addresses, four counters and a section-access flag compared with the model per call; section bytes are supplied through a Deref wrapper that counts accesses.",
         "level_note": _NOTE,
         "statement": "The cache caches (hit after cacheable call absent slot collisions, no section access on a hit) and its four statistics are exact.",
+    },
+    "C05": {
+        "lean": ["FH.Props.C05"],
+        "engines": ["row", "hist", "rule"],
+        "level_text": "Theorems (both architectures): if a row of the domain (CFA = sp|fp + k; return address / frame pointer undefined, same value or saved at a CFA-relative slot) is compressed into a cacheable rule, executing the rule performs exactly the step DWARF prescribes (dwarfSpec over mathematical integers); the generic evaluator performs exactly that step too; hence the two paths agree; 'return address undefined' ends the stack. framehop's deliberate refusals (null return address, no progress, 64-bit overflow, frame-pointer sanity checks, aarch64 caller frames needing a recoverable fp) are the explicit hypotheses. All narrowing (/8, /16, u16, i16, i64 overflow) is in the model and discharged by omega. Tie: rows written as real CFI bytes and unwound through Unwinder::unwind_frame; the Lean driver decides per case whether the theorems' hypotheses hold and, if so, the harness compares the implementation with dwarfSpec directly.",
+        "level_note": _NOTE + " DWARF expressions are outside the model (rows with expressions are modelled as 'cannot evaluate', which is what the harness's CFI writer emits for them). Known finding F14 (aarch64 first frame treats an undefined return address as same-value; documented choice in the source) is proved as C05_a64_first_frame_undefined_ra_counterexample and excluded from the domain.",
+        "statement": "Compressed rule = generic evaluation = DWARF semantics of the row, for all rows of the domain, all registers, all stack contents with readable slots.",
     },
 }
